@@ -38,13 +38,49 @@ BNMaxExp == 400
 BNPow[m \in 1..2000, d \in 0..BNMaxExp] ==
   IF d = 0 THEN <<1>> ELSE BNMulSmall(BNPow[m, d - 1], m)
 
-(* PowLE(beta, d, P):  (2000/(1000+beta))^d <= P, exactly.                  *)
-PowLE(beta, d, P) ==
+(* PowLEExact(beta, d, P):  (2000/(1000+beta))^d <= P, exactly.             *)
+PowLEExact(beta, d, P) ==
   LET g == BNGcd(2000, 1000 + beta)
       num == 2000 \div g
       den == (1000 + beta) \div g
   IN  IF d <= 0 THEN P >= 1
       ELSE BNLeq(BNPow[num, d], BNMulSmall(BNPow[den, d], P))
+
+(* Interval filter.  The exact comparison costs O(d^2) limb operations;     *)
+(* histories with deep trees (beta = 999, height 200) ask it at every       *)
+(* event.  (num/den)^d is therefore first enclosed between two binary       *)
+(* floating-point numbers <<m, e>> = m * 2^e with a 15-bit mantissa, the    *)
+(* lower one always rounded down and the upper one always rounded up (all   *)
+(* intermediate products stay below 2^31).  Only when P falls between the   *)
+(* two (a few per cent around the boundary) is the exact comparison needed. *)
+(* BigNatMC checks PowLE = PowLEExact on a grid that includes boundaries.   *)
+Two15 == 32768
+RECURSIVE NormLo(_, _)
+NormLo(q, e) == IF q >= Two15 THEN NormLo(q \div 2, e + 1) ELSE <<q, e>>
+RECURSIVE NormUp(_, _)
+NormUp(q, e) == IF q >= Two15 THEN NormUp((q + 1) \div 2, e + 1) ELSE <<q, e>>
+StepLo(x, num, den) == NormLo((x[1] * num * 16) \div den, x[2] - 4)
+StepUp(x, num, den) == NormUp((x[1] * num * 16 + den - 1) \div den, x[2] - 4)
+RECURSIVE PowIv(_, _, _, _, _)
+PowIv(num, den, d, lo, up) ==
+  IF d = 0 THEN [lo |-> lo, up |-> up]
+  ELSE PowIv(num, den, d - 1, StepLo(lo, num, den), StepUp(up, num, den))
+\* m * 2^e <= P   (P >= 0 a machine integer)
+FlLeq(x, P) ==
+  LET m == x[1] e == x[2]
+  IN  IF e >= 0 THEN e <= 15 /\ m * (2 ^ e) <= P
+      ELSE IF 0 - e >= 30 THEN (IF m = 0 THEN TRUE ELSE P >= 1)
+      ELSE (m + (2 ^ (0 - e)) - 1) \div (2 ^ (0 - e)) <= P
+
+PowLE(beta, d, P) ==
+  IF d <= 0 THEN P >= 1
+  ELSE LET g == BNGcd(2000, 1000 + beta)
+           num == 2000 \div g
+           den == (1000 + beta) \div g
+           iv == PowIv(num, den, d, <<16384, 0 - 14>>, <<16384, 0 - 14>>)
+       IN  IF FlLeq(iv.up, P) THEN TRUE
+           ELSE IF ~FlLeq(iv.lo, P) THEN FALSE
+           ELSE PowLEExact(beta, d, P)
 
 (* floor(log_{2000/(1000+beta)} n) for beta < 1000, n >= 1 *)
 RECURSIVE FloorLogGo(_, _, _)
